@@ -37,7 +37,7 @@ Proof. intros J H. exact (generic_text_comfort_correct fl float_cfg H (float_reg
 
 (* the trees of  2a ,  (a+1)(1-a) ,  2(a) ,  a b  on the float table ( + is operator 3, - 4, * 5 ) and the directives
    that write them so: t = lexeme set tight, o = sign left out, b = lexeme with a blank behind it *)
-Definition cd_t := mkDir false false. Definition cd_o := mkDir true true. Definition cd_b := mkDir false true.
+Definition cd_t := mkDir false []. Definition cd_o := mkDir true []. Definition cd_b := mkDir false [P2.Lex.Tok.SBlank].
 Definition cx_a := FIdent [97]. Definition cx_b := FIdent [98].
 Definition cx_2a : ft := FBin 5 (FNum [50]) cx_a.
 Definition cx_prod : ft := FBin 5 (FParen (FBin 3 cx_a (FNum [49]))) (FParen (FBin 4 (FNum [49]) cx_a)).
